@@ -245,6 +245,26 @@ theorem mutate_delivered (E : Env) (st : St) (m : Mutation) :
     · exact ⟨by rw [(runCont_delivered E st _ c _ d hd).1]; rfl, (runCont_delivered E st _ c _ d hd).2⟩
     · simp [skip] at hd
 
+/-- A trait assignment delivers only `(o, n, old ↦ v)` events with `old ≠ v`, from
+user notifiers hooked on `o.n`. -/
+theorem setField_delivered (E : Env) (st : St) (o : Id) (n : Name) (v : Val) (fresh : Id) :
+    ∀ d ∈ (mutate E st (.setField o n v fresh)).delivered,
+      ∃ k old rc, d = .trait k o n old v ∧ old ≠ v ∧ Notifier.user k rc ∈ st.H.get (.trait o n) := by
+  intro d hd
+  simp only [mutate] at hd
+  split at hd
+  · split at hd
+    · simp [skip] at hd
+    · split at hd
+      · simp at hd
+      · split at hd
+        · simp at hd
+        · rename_i hne
+          rcases callTrait_delivered E _ o n _ v _ st.H [] d hd with h1 | ⟨k, rc, hm, _, _, rfl⟩
+          · cases h1
+          · exact ⟨k, _, rc, rfl, by simpa using hne, hm⟩
+  · simp [skip] at hd
+
 /-! ### dead weak references -/
 
 /-- Every notifier of the list has a collected target or handler owner. -/
